@@ -434,6 +434,8 @@ pub fn explore<S: Scenario>(s: &S, b: &Bounds) -> Result<Report, MachineryError>
         }
         report.capped = capped;
         if vcount > 0 {
+            // Layers are cumulative: the violations of the highest layer run so far subsume
+            // those of lower layers. Sorted by (deviations, length) the first one is minimal.
             report.violation_count = vcount;
             report.violations = found
                 .into_iter()
@@ -445,7 +447,6 @@ pub fn explore<S: Scenario>(s: &S, b: &Bounds) -> Result<Report, MachineryError>
                     violation: (&v).into(),
                 })
                 .collect();
-            break;
         }
         if capped {
             break;
